@@ -32,6 +32,11 @@ func LiteralFamily(ctx *core.Ctx) {
 	for _, s := range []string{"", "a", "a b", "it's", `back\slash`, "nl\nx", "cr\rx", "tab\tx", "bs\bx", "ff\fx", "é", "日本語", "😀", "<b>&\"'", "{", "}", "{{}}", "//x", "/*x*/", "a\\'b", " lead", "trail ", "\\n"} {
 		es = append(es, core.EStr(s))
 	}
+	// raw non-ASCII text and an escape sequence in ONE literal (the unquoter's slow path)
+	for _, s := range []string{"l'été", "é\n", "日\t本", "😀\\", "'é'", "ü\rö", "naïve \"q\" café", "\u00e9"} {
+		es = append(es, core.EStr(s))
+	}
+	es = append(es, sp(core.EStr("éé"), `'\u00e9é'`), sp(core.EStr("é'日"), `'é\'\u65e5'`), sp(core.EStr("😀\n"), `'😀\n'`))
 	es = append(es, sp(core.EStr("é"), `'é'`), sp(core.EStr("A"), `'A'`), sp(core.EStr("a b"), `'a b'`), sp(core.EStr("日"), `'日'`), sp(core.EStr("<"), `'<'`))
 	// collections
 	es = append(es, core.EList(), core.EMap(), core.EList(core.EList(), core.EMap()), core.EList(core.EInt(1), core.EStr("a"), core.EList(core.EFloat(5, 1)), core.EList(core.ENull())),
